@@ -638,6 +638,10 @@ func (s *BgpServer) prePolicyFilterpath(peer *peer, path, old *table.Path) (*tab
 		}
 		if table.CanImportToVrf(vrf, path) {
 			path = path.ToLocal()
+		} else if !path.IsWithdraw && old != nil && table.CanImportToVrf(vrf, old) {
+			// The new best no longer carries a target this VRF imports:
+			// the route it replaces has to leave the peer.
+			path = old.ToLocal().Clone(true)
 		} else {
 			return nil, nil, true
 		}
